@@ -263,6 +263,8 @@ def run(ck: Checker) -> None:
     ck.guard("R-REPLACE-FORM", lambda: r_replace_form(ck))
     ck.guard("R-REPLACE-FORM", lambda: r_postinit_derived(ck))
     ck.guard("R-REINSTALL", lambda: T.r_reinstall(ck))  # duplicate copies the children the class itself declares (no accessor inherited from a base class)
+    from . import state_rules as S14
+    ck.guard("R-REG-PAIR", lambda: S14.r_flag_pairing(ck, "R-REG-PAIR", (NODE,)))
     from . import state_rules as S_
     ck.guard("R-REPLACE-FORM", lambda: S_.r_unstable_key(ck, "R-REPLACE-FORM", [(NODE, "ASTNode.replace"), (NODE, "ASTNode.duplicate")], "a copy is made from the node as it is now"))
     # a replacement takes the id a fresh construction would take now: the unique-id helper looks at the registry only
